@@ -780,4 +780,3 @@ Definition src_set_bit_U8 : list effect :=
 
 Definition src_size_check_macro : list effect :=
   [ (Assert (ECond (ECond (EToBool (EVar "begin")) (ECmp CLe (EVar "begin") (EVar "end")) (ELit (0))) (ECond (ECmp CLe (EVar "size") (ECast U64 (EBin OSub I64 (EVar "end") (EVar "begin")))) (ECmp CLe (EVar "offset") (EBin OSub U64 (ECast U64 (EBin OSub I64 (EVar "end") (EVar "begin"))) (EVar "size"))) (ELit (0))) (ELit (0)))) ].
-
